@@ -103,7 +103,7 @@ def core_frame_instances(ops=None, tier="thorough"):
                                     symbolic=["every limb of the input ciphertext (normalised digits)", "two independent scratch fills (exactly the declared tmp_bytes)", "two independent prior output contents"], stubs=FRAME_STUBS,
                                     functions=[FRAME_FILES[0 if op < 2 else 2 if op < 4 else 4] + f"::glwe_{oname} (+ its *_tmp_bytes)", "poulpy-core/src/keyswitching/glwe.rs::glwe_keyswitch_internal", "poulpy-core/src/layouts/prepared/*.rs::prepare",
                                                "hk_core/src/probe_full.rs: Module<Probe> at N=8 over substituted leaf kernels", "poulpy-cpu-ref/src/reference/fft64/{vmp,vec_znx_dft,vec_znx_big}.rs", "poulpy-cpu-ref/src/hal_defaults/*.rs"],
-                                    timeout=3000 if nsym == 999 else 2400, mem_gb=28, core=core))
+                                    timeout=2400, mem_gb=28, core=core))
     return out
 
 
